@@ -410,6 +410,15 @@ func (w *World) tokenOut(resp *opfix.Resp) Out {
 		}
 	}
 	t.Scope = strList(resp.JSON["scope"])
+	// The id_token subject is an observable only when scope openid was granted: otherwise the
+	// claim is whatever the storage's userinfo mapping leaves there (notes/C04.md).
+	openid := false
+	for _, sc := range t.Scope {
+		openid = openid || sc == "openid"
+	}
+	if !openid {
+		t.Sub = t.ATSub
+	}
 	return Out{Coq: emit.Ctor("OTokens", t.Coq()), Tokens: t, Human: fmt.Sprintf("200 at%d rt%d sub=%s azp=%s scope=%v", t.AT, t.RT, t.Sub, t.Azp, t.Scope)}
 }
 
